@@ -324,6 +324,23 @@ class GuardFlow:
                         mixed[loc] = pure.pop(loc)
                         changed = True
                         break
+        # short-circuit flags (`a || b`, `a && b`): locals with both a constant and a non-constant
+        # definition that feed a switchInt are tracked as bindings too, so that the constant
+        # written on one path is not confused with the value computed on the other.
+        sw_locals = set()
+        for bid, blk in self.body.blocks.items():
+            if blk.cleanup or blk.term.kind != 'switchInt':
+                continue
+            d = blk.term.discr.replace('move ', '').replace('copy ', '').strip()
+            if is_plain_local(d):
+                sw_locals.add(int(d[1:]))
+        for loc, dl in defs.items():
+            if loc in pure or loc in mixed or loc not in sw_locals:
+                continue
+            consts = [x for x in dl if x[2] == 'assign' and re.match(r'^const (true|false)$', x[3].rhs.strip())]
+            nonconst = [x for x in dl if not (x[2] == 'assign' and re.match(r'^const ', x[3].rhs.strip()))]
+            if consts and nonconst:
+                mixed[loc] = Desc((), 'none')
         return pure, mixed
 
     def _call_desc(self, t, descs):
@@ -449,14 +466,20 @@ class GuardFlow:
                 return value_of_place(rhs, world)
             return UNKNOWN
 
-        def transfer_block(bid, world):
-            """apply statements; returns world before terminator"""
+        def transfer_block(bid, world, lo=0, hi=None):
+            """apply statements [lo, hi) of the block; returns the world after them"""
             atom, binds = world
             if not mixed_locals:
                 return world
             blk = body.blocks[bid]
             binds = list(binds)
-            for s in blk.stmts:
+            stmts = blk.stmts[lo:hi] if hi is not None else blk.stmts[lo:]
+            for s in stmts:
+                if s.kind == 'dead':
+                    m = re.fullmatch(r'_(\d+)', s.lhs.strip())
+                    if m and int(m.group(1)) in mixed:
+                        binds[mixed_locals.index(int(m.group(1)))] = UNKNOWN
+                    continue
                 if s.kind != 'assign':
                     continue
                 lhs = s.lhs.strip()
@@ -484,16 +507,16 @@ class GuardFlow:
             succ_worlds = {}
             after = []
             for w in worlds:
-                w2 = transfer_block(bid, w)
                 if stmt_guard and bid == gb:
+                    w2 = transfer_block(bid, w, 0, gblock[1] + 1)
                     for a in universe:
                         b2 = list(w2[1])
                         for k, ml in enumerate(mixed_locals):
                             if ml == root_local:
                                 b2[k] = mixed[ml].eval(a)
-                        after.append((a, tuple(b2)))
+                        after.append(transfer_block(bid, (a, tuple(b2)), gblock[1] + 1, None))
                 else:
-                    after.append(w2)
+                    after.append(transfer_block(bid, w))
             for (atom, binds) in after:
                 if t.kind == 'call':
                     # dest of a call into a mixed local -> unknown
